@@ -292,6 +292,10 @@ def run(ctx):
     check_tree_counters(ctx)
     check_ingest_lock(ctx)
     check_schedules(ctx, sample)
+    # commit order = seqno order only if the batch's seqno is drawn inside the journal critical section that also applies and publishes it (C14's obligation, part of this property too):
+    # a batch that draws its seqno first and queues for the lock afterwards is applied while the visible seqno is already past it
+    from . import c14
+    c14.check_critical_section(ctx, 'batch')
     # every tree of the database (new, recovered, meta) must be wired to the same two counters in the same roles (shared obligations, see wiring.py)
     from . import wiring
     wiring.check_all(ctx)
